@@ -31,3 +31,7 @@ def run(ctx, rep, tier):
         shared.kappa_normalisation(rep, F, tag, 'C02.R3')
     from . import units_rules
     units_rules.c02(ctx, rep)
+    from . import primitives
+    primitives.vector_primitives(rep, ctx.facts('default'), ctx.eff('default'), '', 'C02.R7')
+
+
